@@ -47,6 +47,7 @@ def values(limit):
     vs = [["int", z] for z in (-3, -1, 0, 1, 2, limit, limit + 1, limit + 5)]
     vs += [["npint", z] for z in (-2, 0, 1, limit, limit + 2)]
     vs += [["float"], ["float", 1], ["float", limit], ["str"], ["none"], ["list"]]
+    vs += [["float", 4], ["float", 5], ["float", 3], ["int", 4], ["int", 5]]       # also values EQUAL to what the model currently holds
     return vs
 
 
